@@ -31,7 +31,7 @@ ASSUMPTIONS = [
     'containers hold literals only (the statement says: literals, containers of literals or nested Parameterized '
     'objects); Parameterized values sit directly in Parameter/ClassSelector parameters, nested to depth 2',
 ]
-REQUIRED = {'pprint_evals': 1000, 'script_repr_evals': 1000, 'values_related_to_default': 100, 'concurrent_prints': 30, 'prints_interrupted': 6, 'class_default_histories': 6}
+REQUIRED = {'pprint_evals': 1000, 'script_repr_evals': 1000, 'values_related_to_default': 100, 'concurrent_prints': 30, 'prints_interrupted': 6, 'class_default_histories': 6, 'parameters_added_after_first_print': 6}
 
 MODNAME = 'pvgen_c20'
 _st = {}
@@ -117,7 +117,8 @@ def inner_value(rng, inners, depth=0):
         kw['anyv'] = lit(rng, 1) if depth or rng.random() < 0.6 else inner_value(rng, inners, depth + 1)
     if rng.random() < 0.25:
         kw['name'] = rng.choice(['named', 'Inner', 'x1', cls.__name__ + 'x', cls.__name__ + '12 (copy)', cls.__name__ + '_7',
-                                 cls.__name__ + '00042_copy', cls.__name__ + '00007.1', cls.__name__ + '123456'])
+                                 cls.__name__ + '00042_copy', cls.__name__ + '00007.1', cls.__name__ + '123456',
+                                 cls.__name__ + '_2024_00017', cls.__name__ + 'ner70000'])
     return cls(**kw)
 
 
@@ -195,7 +196,8 @@ def equal(a, b, path='', diffs=None):
         for k in va:
             if k == 'name':
                 import re
-                auto = re.match('^' + type(a).__name__ + '[0-9]+$', va[k] or '')
+                # (an auto-generated name is the class name followed by exactly five digits; 'P12' is somebody's choice)
+                auto = re.match('^' + type(a).__name__ + '[0-9]{5}$', va[k] or '')
                 if auto:
                     continue
             equal(va[k], vb.get(k, '<missing>'), f'{path}.{k}', diffs)
@@ -315,13 +317,36 @@ def history_case(idx, rng, P, rep):
     setattr(mod, iname, Inner)
     setattr(mod, cname, Outer)
     evalns = {k: v for k, v in vars(mod).items() if not k.startswith('__')}
-    which = rng.choice(['interrupted-print', 'class-default-changed-between-prints'])
+    which = rng.choice(['interrupted-print', 'class-default-changed-between-prints', 'parameter-added-after-first-print'])
     printer = rng.choice(['pprint', 'script_repr'])
 
     def show(o):
         return o.param.pprint() if printer == 'pprint' else param.script_repr(o)
     obj = Outer(x=2.0, n=Tripwire(7), child=Inner(y=40.0))
-    if which == 'interrupted-print':
+    if which == 'parameter-added-after-first-print':
+        # a class that gains a Parameter after its objects have been printed (or its signature inspected) once
+        early = rng.choice(['print', 'signature', 'print-subclass-object'])
+        Sub = type(cname + 'Sub', (Outer,), {'__module__': MODNAME})
+        setattr(mod, cname + 'Sub', Sub)
+        evalns[cname + 'Sub'] = Sub
+        if early == 'print':
+            show(obj)
+        elif early == 'signature':
+            import inspect
+            inspect.signature(Outer), inspect.signature(Inner), inspect.signature(Sub)
+        else:
+            show(Sub(x=1.5))
+        how = rng.choice(['add_parameter', 'class-attribute', 'add_parameter-on-parent'])
+        if how == 'class-attribute':
+            Outer.late = param.Integer(default=4)
+            Inner.tag = param.String(default='t')
+        else:
+            Outer.param.add_parameter('late', param.Integer(default=4))
+            Inner.param.add_parameter('tag', param.String(default='t'))
+        target = Sub if how == 'add_parameter-on-parent' or early == 'print-subclass-object' else Outer
+        obj = target(x=2.0, n=7, late=6, child=Inner(y=40.0, tag='changed'))
+        rep.count('parameters_added_after_first_print')
+    elif which == 'interrupted-print':
         _st['trip'], _st['tripped'] = True, False
         try:
             show(obj)
@@ -448,7 +473,8 @@ def run_case(idx, rng, P, rep):
                     kw[s['name']] = gen_value(rng, s['ptype'], inners, s)
         if shape != 'named' and rng.random() < 0.3:
             kw['name'] = rng.choice(['explicit', cname, 'Outer', cname + '1x', cname + '12_copy', cname + '3 (2)', 'n0',
-                                     cname + '00042_copy', cname + '00007-b', cname + '000011', cname + '0001'])
+                                     cname + '00042_copy', cname + '00007-b', cname + '000011', cname + '0001',
+                                     cname + '_2024_00017', cname + '/nightly/20240', cname + 'ner70000'])
         try:
             obj = cls(**kw)
         except Exception as e:   # noqa: BLE001
